@@ -227,4 +227,179 @@ theorem enc_fold (attrs : List (QName × List Value)) (kvs : List (String × JVa
       · exact hnew e h q (List.mem_cons_of_mem _ hq)
       · rw [entryOf_keys p e h]; exact hd'.1 q hq
 
+/-! ### the reader's loop over the writer's object -/
+
+/-- what the reader makes of the written value (total versions of the existential witnesses) -/
+def dvOf (h : Heap) (c : Nat) (v : Value) : DecVal :=
+  match h.decodeJsonValue c (encodeJsonValue v) with
+  | .ok dv => dv
+  | .error _ => { value := .nil }
+
+def nameOf (h : Heap) (c : Nat) (a : QName) : QName := (h.jsonAttrName c a.print).getD a
+
+def refOf (h : Heap) (c : Nat) (q : QName) : QName :=
+  match h.jsonName c (some (.str q.print)) with
+  | .ok (some q') => q'
+  | _ => q
+
+/-- `conv` over the written values of one non-PROV attribute -/
+theorem conv_values (h : Heap) (c : Nat) (std : StdNames h c) (attr? : Option QName) (vs : List Value)
+    (hr : ∀ v ∈ vs, ValReadable h c v) :
+    Heap.decodeElemAttrs.conv h c attr? (vs.map encodeJsonValue) =
+      .ok (vs.map (fun v => { name := (match attr? with | some a => .qn a | none => .nil),
+                              value := (dvOf h c v).value, flt := (dvOf h c v).flt })) := by
+  induction vs with
+  | nil => simp [Heap.decodeElemAttrs.conv]
+  | cons v rest ih =>
+    obtain ⟨dv, hdv, _⟩ := c01_value_any h c std v (hr v List.mem_cons_self)
+    have hd : dvOf h c v = dv := by simp [dvOf, hdv]
+    simp only [List.map_cons, Heap.decodeElemAttrs.conv, hdv, ih (fun w hw => hr w (List.mem_cons_of_mem _ hw)), hd]
+    rfl
+
+theorem encodeJsonValue_not_arr (v : Value) : ∀ l, encodeJsonValue v ≠ .arr l := by
+  intro l
+  cases v with
+  | lit s ty lang =>
+    cases lang with
+    | none => simp [encodeJsonValue]
+    | some x => simp only [encodeJsonValue]; split <;> simp
+  | _ => simp [encodeJsonValue]
+
+/-- the `formal` dictionary entries the reader derives from one written attribute -/
+def fEntry (h : Heap) (c : Nat) (p : QName × List Value) : List (QName × ArgVal) :=
+  match p.2 with
+  | [] => []
+  | v :: _ =>
+    if isRefAttr p.1 then (match v with | .qn q => [(nameOf h c p.1, .val (.qn (refOf h c q)))] | _ => [])
+    else if isTimeAttr p.1 then (match v with | .dt t => [(nameOf h c p.1, .val (.dt t))] | _ => [])
+    else []
+
+/-- the `other_attributes` arguments the reader derives from one written attribute -/
+def oArgs (h : Heap) (c : Nat) (p : QName × List Value) : List AttrArg :=
+  if isProvAttr p.1 then []
+  else p.2.map (fun v => { name := .qn (nameOf h c p.1), value := (dvOf h c v).value, flt := (dvOf h c v).flt })
+
+/-- everything the writer prints for this attribute is readable in container `c` (C03 (c) for each name involved) -/
+structure PairReadable (h : Heap) (c : Nat) (p : QName × List Value) : Prop where
+  name : ∃ a', h.jsonAttrName c p.1.print = some a' ∧ a'.uri = p.1.uri
+  ref : isRefAttr p.1 = true → ∀ v more, p.2 = v :: more → ∃ q, v = .qn q ∧ ReadsAs h c q.print q.uri
+  time : isRefAttr p.1 = false → isTimeAttr p.1 = true → ∀ v more, p.2 = v :: more → ∃ t, v = .dt t ∧ ValidDT t
+  other : isProvAttr p.1 = false → ∀ v ∈ p.2, ValReadable h c v
+
+theorem dictSet_new (d : List (QName × ArgVal)) (k : QName) (v : ArgVal) (h : ∀ e ∈ d, e.1.same k = false) :
+    Heap.dictSet d k v = d ++ [(k, v)] := by
+  induction d with
+  | nil => rfl
+  | cons e rest ih =>
+    obtain ⟨k', v'⟩ := e
+    have hne : k'.same k = false := h (k', v') List.mem_cons_self
+    simp only [Heap.dictSet, hne, Bool.false_eq_true, if_false, List.cons_append]
+    rw [ih (fun e he => h e (List.mem_cons_of_mem _ he))]
+
+theorem nameOf_spec {h : Heap} {c : Nat} {p : QName × List Value} (hr : PairReadable h c p) :
+    h.jsonAttrName c p.1.print = some (nameOf h c p.1) ∧ (nameOf h c p.1).uri = p.1.uri := by
+  obtain ⟨a', h1, h2⟩ := hr.name
+  simp [nameOf, h1, h2]
+
+/-- one member of the written object through the reader's loop body -/
+theorem dec_step (h : Heap) (c : Nat) (std : StdNames h c) (kind : RecKind) (p : QName × List Value)
+    (hr : PairReadable h c p) (rest : List (String × JVal)) (acc : Heap.ElemAcc)
+    (hnew : ∀ e ∈ acc.formal, e.1.same (nameOf h c p.1) = false) :
+    h.decodeElemAttrs c kind (entryOf p ++ rest) acc =
+      h.decodeElemAttrs c kind rest
+        { formal := acc.formal ++ fEntry h c p, other := acc.other ++ oArgs h c p, extraMembers := acc.extraMembers } := by
+  obtain ⟨hname, huri⟩ := nameOf_spec hr
+  obtain ⟨a, vs⟩ := p
+  cases vs with
+  | nil => simp [entryOf, fEntry, oArgs]
+  | cons v more =>
+    simp only [entryOf, List.cons_append, List.nil_append]
+    by_cases href : isRefAttr a = true
+    · obtain ⟨q, rfl, hq⟩ := hr.ref href v more rfl
+      obtain ⟨q', hq', _⟩ := jsonName_of_readsAs hq
+      have href' : isRefAttr (nameOf h c a) = true := by rw [isRefAttr_congr huri]; exact href
+      have hprov' : isProvAttr (nameOf h c a) = true := by simp [isProvAttr, href']
+      have hprov : isProvAttr a = true := by simp [isProvAttr, href]
+      have hro : refOf h c q = q' := by simp [refOf, hq']
+      have hj : jvalOf a (.qn q) more = .str q.print := by simp [jvalOf, href, formalText]
+      rw [hj, Heap.decodeElemAttrs]
+      · simp [hname, hprov', href', hq', fEntry, oArgs, hprov, hro, href,
+          dictSet_new acc.formal (nameOf h c a) _ hnew]
+      · intro l hl; cases hl
+    · have href0 : isRefAttr a = false := by simpa using href
+      have href' : isRefAttr (nameOf h c a) = false := by rw [isRefAttr_congr huri]; exact href0
+      by_cases ht : isTimeAttr a = true
+      · obtain ⟨t, rfl, hvt⟩ := hr.time href0 ht v more rfl
+        have ht' : isTimeAttr (nameOf h c a) = true := by rw [isTimeAttr_congr huri]; exact ht
+        have hprov' : isProvAttr (nameOf h c a) = true := by simp [isProvAttr, ht']
+        have hprov : isProvAttr a = true := by simp [isProvAttr, ht]
+        have hj : jvalOf a (.dt t) more = .str t.iso := by simp [jvalOf, href0, ht, formalText]
+        rw [hj, Heap.decodeElemAttrs]
+        · simp [hname, hprov', href', parseIso_iso t hvt, fEntry, oArgs, hprov, href0, ht,
+            dictSet_new acc.formal (nameOf h c a) _ hnew]
+        · intro l hl; cases hl
+      · have ht0 : isTimeAttr a = false := by simpa using ht
+        have hprov : isProvAttr a = false := by simp [isProvAttr, href0, ht0]
+        have hprov' : isProvAttr (nameOf h c a) = false := by rw [isProvAttr_congr huri]; exact hprov
+        have hvals := conv_values h c std (some (nameOf h c a)) (v :: more) (hr.other hprov)
+        by_cases hm : more.isEmpty = true
+        · have hmore : more = [] := by simpa using hm
+          subst hmore
+          have hj : jvalOf a v [] = encodeJsonValue v := by simp [jvalOf, href0, ht0]
+          have hna := encodeJsonValue_not_arr v
+          simp only [List.map_cons, List.map_nil] at hvals
+          rw [hj]
+          cases hev : encodeJsonValue v with
+          | arr l => exact absurd hev (hna l)
+          | _ =>
+            rw [hev] at hvals
+            rw [Heap.decodeElemAttrs]
+            · simp [hname, hprov', hvals, fEntry, oArgs, hprov, href0, ht0]
+            · intro l hl; cases hl
+        · have hm0 : more.isEmpty = false := by simpa using hm
+          have hj : jvalOf a v more = .arr ((v :: more).map encodeJsonValue) := by simp [jvalOf, href0, ht0, hm0]
+          simp only [List.map_cons] at hvals
+          rw [hj, Heap.decodeElemAttrs]
+          simp [hname, hprov', hvals, fEntry, oArgs, hprov, href0, ht0]
+
+theorem fEntry_keys (h : Heap) (c : Nat) (p : QName × List Value) : ∀ e ∈ fEntry h c p, e.1 = nameOf h c p.1 := by
+  obtain ⟨a, vs⟩ := p
+  cases vs with
+  | nil => simp [fEntry]
+  | cons v more =>
+    intro e he
+    simp only [fEntry] at he
+    split at he
+    · cases v <;> simp_all
+    · split at he
+      · cases v <;> simp_all
+      · simp at he
+
+/-- **the reader's loop on the writer's object**: every member is accepted; the `formal` dictionary and the
+    `other_attributes` list are exactly the decoded images of the record's attributes, in order -/
+theorem dec_fold (h : Heap) (c : Nat) (std : StdNames h c) (kind : RecKind) (attrs : List (QName × List Value))
+    (hr : ∀ p ∈ attrs, PairReadable h c p) (acc : Heap.ElemAcc)
+    (hnew : ∀ e ∈ acc.formal, ∀ p ∈ attrs, e.1.uri ≠ p.1.uri)
+    (hd : attrs.Pairwise (fun p q => p.1.uri ≠ q.1.uri)) :
+    h.decodeElemAttrs c kind (attrs.flatMap entryOf) acc =
+      .ok { formal := acc.formal ++ attrs.flatMap (fEntry h c), other := acc.other ++ attrs.flatMap (oArgs h c),
+            extraMembers := acc.extraMembers } := by
+  induction attrs generalizing acc with
+  | nil => simp [Heap.decodeElemAttrs]
+  | cons p rest ih =>
+    have hd' := List.pairwise_cons.mp hd
+    have hp := hr p List.mem_cons_self
+    obtain ⟨_, huri⟩ := nameOf_spec hp
+    rw [List.flatMap_cons, dec_step h c std kind p hp _ acc ?_]
+    · rw [ih (fun q hq => hr q (List.mem_cons_of_mem _ hq)) _ ?_ hd'.2]
+      · simp [List.flatMap_cons, List.append_assoc]
+      · intro e he q hq
+        rcases List.mem_append.mp he with h1 | h1
+        · exact hnew e h1 q (List.mem_cons_of_mem _ hq)
+        · rw [fEntry_keys h c p e h1, huri]; exact hd'.1 q hq
+    · intro e he
+      have := hnew e he p List.mem_cons_self
+      simp only [QName.same, huri, beq_eq_false_iff_ne, ne_eq]
+      exact this
+
 end Prov.C01
